@@ -24,20 +24,33 @@ def genInfomask (hasNull : Bool) : Gen Nat := do
 /-- a tuple whose encoding has at most `maxLen` bytes (`maxLen ≥ 24`) -/
 def genTuple (maxLen : Nat) : Gen Tuple := do
   let hasNull ← Gen.prob 1 3
-  let natts ← match ← Gen.below 6 with
+  -- attribute count: the whole range 0..1600 of PostgreSQL and the rest of the 11-bit field (Tuple.WF allows 0..2047)
+  let natts ← match ← Gen.below 8 with
     | 0 => pure 0
     | 1 => Gen.range 1 8
     | 2 => Gen.range 9 40
-    | 3 => Gen.oneOf [1600, 255, 256, 257, 8, 16, 17]
+    | 3 => Gen.oneOf [1600, 255, 256, 257, 8, 16, 17, 1599, 1601, 2047, 1024]
+    | 4 => Gen.range 41 254
+    | 5 => Gen.oneOf [← Gen.range 258 1599, ← Gen.range 1601 2047, ← Gen.range 258 1599]
     | _ => Gen.range 1 20
   let hi ← Gen.below 32
   let infomask2 := natts + 2048 * hi
-  let hasNull := hasNull && decide (23 + ((23 + (natts + 7) / 8 + 7) / 8 * 8 - 23) ≤ maxLen)
+  -- a bitmap needs room in the tuple and t_hoff = MAXALIGN(23 + bitmap) must fit the one-byte field (natts ≤ 1800)
+  let hasNull := hasNull && decide (23 + ((23 + (natts + 7) / 8 + 7) / 8 * 8 - 23) ≤ maxLen) &&
+    decide ((23 + (natts + 7) / 8 + 7) / 8 * 8 - 23 ≤ 232)
   let bl := if hasNull then (natts + 7) / 8 else 0
-  -- t_hoff = MAXALIGN(23 + bitmap), sometimes a bare 23/24 or extra slack
+  -- t_hoff = MAXALIGN(23 + bitmap); beside it every other header length Tuple.WF admits: a bare 23/24, not MAXALIGNed
+  -- ones, and extra slack behind the bitmap up to t_hoff = 255
   let want := (23 + bl + 7) / 8 * 8 - 23
-  let midLen ← if hasNull then pure want else Gen.oneOf [1, 1, 1, 0, 9]
-  let midLen := if 23 + midLen > maxLen then 0 else midLen
+  let midLen ← if hasNull then
+      (do match ← Gen.below 6 with
+          | 0 => pure bl                                        -- no padding at all (t_hoff = 23 + bitmap)
+          | 1 => Gen.range bl (max bl 232)                      -- anything up to t_hoff = 255
+          | 2 => pure (want + 8 * (← Gen.below 4))
+          | _ => pure want)
+    else Gen.oneOf [1, 1, 1, 0, 9, 17, 25, 33, 2, 5, 193, 232, 231, ← Gen.range 0 232]
+  let midLen := min midLen 232
+  let midLen := if 23 + midLen > maxLen then (if hasNull then want else 0) else midLen
   let mid ← Gen.bytes midLen
   let room := maxLen - (23 + midLen)
   let dl ← match ← Gen.below 8 with
@@ -115,14 +128,39 @@ def genPage (size : Nat) : Gen Page := do
   let tail ← if ← Gen.prob 1 3 then Gen.bytes p.tail.length else pure p.tail
   return { p with hdr0, free, tail, prune := ← Gen.below (2^32) }
 
+/-- one line pointer and the largest tuple that fits a page: 8192 − 24 − 4 = 8164 bytes, ending exactly at 8192 -/
+def genMaxTuplePage : Gen Page := do
+  let hasNull ← Gen.bool
+  let natts ← Gen.oneOf [1, 8, 40, 1600]
+  let bl := if hasNull then (natts + 7) / 8 else 0
+  let midLen := (23 + bl + 7) / 8 * 8 - 23
+  let t : Tuple := { xmin := ← Gen.below (2^32), xmax := ← Gen.below (2^32), cid := ← Gen.below (2^32), ctid := ← Gen.bytes 6,
+                     infomask2 := natts, infomask := ← genInfomask hasNull, mid := ← Gen.bytes midLen,
+                     data := ← Gen.bytes (8164 - 23 - midLen) }
+  return mkPage [([], t)] [.normal 0] 0
+
+/-- MaxHeapTuplesPerPage = 291 line pointers, each to its own minimal (24-byte) tuple: (8192 − 24) / (24 + 4) = 291 -/
+def genFullPointerPage : Gen Page := do
+  let n ← Gen.oneOf [291, 291, 290, 256, ← Gen.range 200 291]
+  let mut slots : Array (Bytes × Tuple) := #[]
+  for _ in [0:n] do
+    slots := slots.push ([], { xmin := 3, xmax := 0, cid := 0, ctid := zeros 6, infomask2 := 0, infomask := ← genInfomask false, mid := [0], data := [] })
+  let lps ← Gen.shuffle ((List.range n).map LP.normal)
+  let slack := 8192 - 24 - 4 * n - 24 * n
+  return mkPage slots.toList lps (← Gen.oneOf [0, slack])
+
 def genBlock (size : Nat) : Gen Block := do
-  if ← Gen.prob 1 7 then return .zero
-  return .page (← genPage size)
+  match ← Gen.below 28 with
+  | 0 | 1 | 2 | 3 => return .zero
+  | 4 => return .page (← genMaxTuplePage)
+  | 5 => if size ≥ 3 then return .page (← genFullPointerPage) else return .page (← genPage size)
+  | _ => return .page (← genPage size)
 
 def genHeap (size : Nat) : Gen (List Block × Bytes) := do
   let n ← match ← Gen.below 12 with
     | 0 => pure 0
     | 1 | 2 => pure 1
+    | 3 => Gen.range 1 (min 12 (2 + 2 * size))
     | _ => Gen.range 1 (2 + size)
   let bs ← Gen.listOf n (genBlock size)
   let tl ← match ← Gen.below 4 with
